@@ -27,11 +27,17 @@ Open Scope N_scope.
 Record cfg := mkCfg {
   (* patches/C17-1.diff: output_newtype emits `impl Display` for String-constrained newtypes *)
   fix_display_constrained : bool;
-  (* patches/C17-2.diff: has_impl(Integer("::std::num::NonZero…"), Default) = false *)
-  fix_nonzero_default : bool }.
+  (* patches/C17-2.diff = /repo 2273521: has_impl(Integer("::std::num::NonZero…"), Default) = false *)
+  fix_nonzero_default : bool;
+  (* patches/C17-3.diff: the public facade Type::has_impl (lib.rs) answers false for
+     (String-constrained newtype, Display); TypeEntry::has_impl, which the emission
+     consults, is unchanged, so the output is byte-identical *)
+  fix_display_facade : bool }.
 
-Definition pinned : cfg := mkCfg false false.
-Definition repaired : cfg := mkCfg true true.
+Definition pinned : cfg := mkCfg false false false.          (* the pinned commit *)
+Definition current : cfg := mkCfg false true false.          (* after fix 2273521 *)
+Definition repaired : cfg := mkCfg true true false.          (* 2273521 + C17-1 *)
+Definition repaired_facade : cfg := mkCfg false true true.   (* 2273521 + C17-3 *)
 
 (* outcome of a has_impl query: a boolean, unbounded recursion (the Rust stack
    overflows), or a panic (`unwrap()` on a dangling id, `unreachable!()`) *)
@@ -118,15 +124,28 @@ Fixpoint has_impl_d (c : cfg) (T : space) (fuel : nat) (d : details) (t : trait)
   | S f => has_impl_step c T (has_impl_d c T f) d t
   end.
 
+(* TypeEntry::has_impl by id (what the emission code consults) *)
 Definition has_impl_r (c : cfg) (T : space) (fuel : nat) (i : id) (t : trait) : hres :=
   match get_det T i with
   | None => HPanic
   | Some d => has_impl_d c T fuel d t
   end.
 
-(* the boolean the API hands out (Type::has_impl); false when there is no answer *)
+(* C17-F1: Display asked of a String-constrained newtype *)
+Definition known_display_constrained (T : space) (i : id) (t : trait) : bool :=
+  match t, get_det T i with
+  | TDisplay, Some (DNewtype _ _ _ (CString _ _ _)) => true
+  | _, _ => false
+  end.
+
+(* Type::has_impl, lib.rs:1102: the facade (patches/C17-3.diff adds the early return) *)
+Definition has_impl_api_r (c : cfg) (T : space) (fuel : nat) (i : id) (t : trait) : hres :=
+  if fix_display_facade c && known_display_constrained T i t then HBool false
+  else has_impl_r c T fuel i t.
+
+(* the boolean the API hands out; false when there is no answer *)
 Definition has_impl (c : cfg) (T : space) (fuel : nat) (i : id) (t : trait) : bool :=
-  match has_impl_r c T fuel i t with HBool b => b | _ => false end.
+  match has_impl_api_r c T fuel i t with HBool b => b | _ => false end.
 
 (* ---------------------------------------------------------------- emission *)
 
@@ -235,13 +254,6 @@ Fixpoint implements (c : cfg) (T : space) (fuel : nat) (i : id) (t : trait) : bo
   end.
 
 (* --------------------------------------------------- the two known classes *)
-
-(* C17-F1: Display asked of a String-constrained newtype *)
-Definition known_display_constrained (T : space) (i : id) (t : trait) : bool :=
-  match t, get_det T i with
-  | TDisplay, Some (DNewtype _ _ _ (CString _ _ _)) => true
-  | _, _ => false
-  end.
 
 (* C17-F2: Default asked of a NonZero integer, or of a Box / tuple / array (n>=1)
    built from one *)
@@ -418,7 +430,7 @@ Definition traits3 : list trait := [TFromStr; TDisplay; TDefault].
 Definition show_entry (c : cfg) (T : space) (fuel : nat) (ie : id * entry) : string :=
   let i := fst ie in
   let d := e_det (snd ie) in
-  show_N i ++ "|H:" ++ String.concat "" (map (fun t => show_hres (has_impl_r c T fuel i t)) traits3)
+  show_N i ++ "|H:" ++ String.concat "" (map (fun t => show_hres (has_impl_api_r c T fuel i t)) traits3)
   ++ "|E:" ++ (if is_named d then String.concat "" (map (fun t => show_hres (emitted_r c T fuel d t)) traits3) else "---")
   ++ "|I:" ++ String.concat "" (map (fun t => show_bool (implements c T fuel i t)) traits3)
   ++ "|K:" ++ String.concat "" (map (fun t => show_bool (known_display_constrained T i t)) traits3)
